@@ -81,8 +81,8 @@ def run(ctx):
                           'listing uses matcher %s (argument given: %s)' % (m, has_arg))
                 ctx.check(e.argtext(0) == 'self.current_connection', 'C11.2', 'list:selected-connection', f_list.loc(e.node),
                           'the listing is restricted to the selected connection', 'listing passes connection %s' % e.argtext(0))
-                two = [v for a, v in p.decisions if a.text == "2 == len(arg.split('~'))"]
-                c = e.argtext(2)
+                two = [v for a, v in p.decisions if a.text in ("2 == len(arg.split('~'))", "1 == len(arg.split('~')[1:])")]
+                c = (e.argtext(2) or '').replace("[1:][0]", "[1]")
                 want = "int(arg.split('~')[1])" if (two and two[0]) else 'None'
                 ctx.check(c == want and bool(two), 'C11.4', 'list:cap-parse:%s' % want, f_list.loc(e.node), 'cap is the number after ~ (or absent)', 'cap is %s' % c)
     ctx.floor('C11.6', nl, 4, 'show_messages calls from list_command')
@@ -163,7 +163,8 @@ def run(ctx):
                   'each scanned message is either collected (matcher true) or counted as not matching (matcher false), never both',
                   'scan bookkeeping is wrong on path %s' % p.describe()[:200])
         accs = {norm(x.recv) for x in p.events if x.kind == 'call' and x.ftext and x.ftext.endswith('.append')}
-        acc = next(iter(accs)) if len(accs) == 1 else 'acc'
+        ml = re.match(r'^(?:list\(reversed\((\w+)\)\)|(\w+)\[::-1\]|(\w+))$', norm(lst))
+        acc = next(iter(accs)) if len(accs) == 1 else ((ml.group(1) or ml.group(2) or ml.group(3)) if ml else 'acc')
         ctx.check(norm(matched) == 'len(%s)' % acc and acc in norm(lst), 'C11.5', 'counts:matched-is-len', f_get.loc(),
                   'the matched count is the length of the returned list', 'matched count is %s for list %s' % (norm(matched), norm(lst)))
         ld = lin(didnt, None)
